@@ -86,7 +86,7 @@ func genClient(t *rapid.T, i int, kind string) vkit.ClientSpec {
 		c.AppType, c.AuthMethod = "web", "private_key_jwt"
 		// RS256 / ES256: what the OP accepts for client assertions. Every client has its own key; the key id is the client's
 		// business (nothing makes key ids unique across clients): several clients may name their - different - keys alike.
-		kid := rapid.SampledFrom([]string{"k-" + id, sharedKID, sharedKID}).Draw(t, fmt.Sprintf("cl%d-kid", i))
+		kid := rapid.SampledFrom([]string{"k-" + id, sharedKID, sharedKID, sharedKID}).Draw(t, fmt.Sprintf("cl%d-kid", i))
 		c.Keys = map[string]string{kid: []string{"rsa2", "rsa3", "p256b", "rsa4"}[i%4]}
 		if rapid.Bool().Draw(t, fmt.Sprintf("cl%d-storedsecret", i)) {
 			// the storage also holds (and accepts) a secret for this client, e.g. left over from an earlier registration
@@ -219,9 +219,15 @@ func nearMiss(kind, u string) string {
 
 var backIdx = []int{0, 0, 0, 0, 0, 1, 1, 2, 3, 5}
 
-func genAuthorize(t *rapid.T, nClients int) Op {
+// pk: the private_key_jwt clients of the case; when there are several, they get a larger share of the history (their
+// assertions are verified against keys looked up per client: the interesting interleavings are among them)
+func genAuthorize(t *rapid.T, nClients int, pk []int) Op {
 	o := Op{Kind: "authorize"}
-	o.Client = rapid.IntRange(0, nClients-1).Draw(t, "client")
+	if len(pk) >= 2 && rapid.IntRange(0, 2).Draw(t, "client-pk") == 0 {
+		o.Client = rapid.SampledFrom(pk).Draw(t, "client")
+	} else {
+		o.Client = rapid.IntRange(0, nClients-1).Draw(t, "client")
+	}
 	o.URI = rapid.IntRange(0, 2).Draw(t, "uri")
 	o.PKCE = rapid.SampledFrom([]string{"", "", "S256", "S256", "S256", "plain", "plain-default"}).Draw(t, "pkce")
 	o.Verifier = rapid.SampledFrom([]int{0, 0, 1, 2, 3}).Draw(t, "verifier")
@@ -234,7 +240,7 @@ func genAuthorize(t *rapid.T, nClients int) Op {
 // Storage methods on the path of a code exchange / of a callback (a fault on any other method never fires, which is
 // harmless: the request is then judged like an unfaulted one). DeleteAuthRequest is what spends the code, so it is drawn more often.
 var exchangeFaultMethods = []string{"GetClientByClientID", "AuthorizeClientIDSecret", "GetKeyByIDAndClientID", "AuthRequestByCode",
-	"CreateAccessToken", "CreateAccessAndRefreshTokens", "SigningKey", "SignatureAlgorithms", "SetUserinfoFromScopes", "GetPrivateClaimsFromScopes",
+	"CreateAccessToken", "CreateAccessAndRefreshTokens", "SigningKey", "SetUserinfoFromScopes", "GetPrivateClaimsFromScopes",
 	"DeleteAuthRequest", "DeleteAuthRequest", "DeleteAuthRequest"}
 
 var callbackFaultMethods = []string{"AuthRequestByID", "SaveAuthCode", "GetClientByClientID"}
@@ -252,20 +258,30 @@ func genFault(t *rapid.T, methods []string, maxCall int) *vkit.Fault {
 	return f
 }
 
-func genExchange(t *rapid.T, nClients int) Op {
+var presChoices = []string{"", "", "", "", "", "", "", "", "wrong_secret", "id_only", "swap_method", "bad_key", "foreign_key", "foreign_key", "none", "stored_basic", "stored_post"}
+
+func genExchange(t *rapid.T, nClients int, pk []int) Op {
 	o := Op{Kind: "exchange"}
 	o.Code = rapid.SampledFrom(backIdx).Draw(t, "code")
 	if rapid.IntRange(0, 4).Draw(t, "faulted") == 0 {
-		o.Fault = genFault(t, exchangeFaultMethods, 12)
+		o.Fault = genFault(t, exchangeFaultMethods, 9)
 	}
 	if rapid.IntRange(0, 3).Draw(t, "deviate") == 0 {
 		return o // the honest redemption (or, on a spent code, the plain replay)
 	}
 	o.CodeForm = rapid.SampledFrom([]string{"", "", "", "", "", "", "", "", "", "", "", "mangled", "garbage"}).Draw(t, "codeform")
 	if rapid.IntRange(0, 2).Draw(t, "foreign") == 0 {
-		o.As = rapid.IntRange(1, nClients).Draw(t, "as")
+		if len(pk) >= 2 && rapid.Bool().Draw(t, "as-pk") {
+			o.As = 1 + rapid.SampledFrom(pk).Draw(t, "as")
+		} else {
+			o.As = rapid.IntRange(1, nClients).Draw(t, "as")
+		}
 	}
-	o.Pres = rapid.SampledFrom([]string{"", "", "", "", "", "", "", "", "wrong_secret", "id_only", "swap_method", "bad_key", "foreign_key", "foreign_key", "none", "stored_basic", "stored_post"}).Draw(t, "pres")
+	if len(pk) >= 2 && rapid.IntRange(0, 4).Draw(t, "pres-foreign-key") == 0 {
+		o.Pres = "foreign_key"
+	} else {
+		o.Pres = rapid.SampledFrom(presChoices).Draw(t, "pres")
+	}
 	o.BodyID = rapid.SampledFrom([]string{"", "", "", "", "", "own", "owner", "owner"}).Draw(t, "bodyid")
 	o.Redirect = rapid.SampledFrom(redirectChoices).Draw(t, "redirect")
 	o.Ver = rapid.SampledFrom([]string{"", "", "", "", "", "", "", "wrong", "missing", "missing", "other", "challenge"}).Draw(t, "ver")
@@ -286,7 +302,7 @@ func genCase0(t *rapid.T) Case {
 	var c Case
 	c.Router = rapid.SampledFrom([]string{"provider", "legacy"}).Draw(t, "router")
 	c.SignAlg = rapid.SampledFrom([]string{"RS256", "RS256", "RS256", "ES256", "PS256", "EdDSA"}).Draw(t, "signalg")
-	n := rapid.IntRange(3, 5).Draw(t, "nclients")
+	n := rapid.SampledFrom([]int{3, 4, 4, 5, 5}).Draw(t, "nclients")
 	all := []string{"basic", "post", "pkjwt", "pkjwt", "pkjwt", "native", "spa", "native", "basic"}
 	for i := 0; i < n; i++ {
 		var kind string
@@ -296,11 +312,17 @@ func genCase0(t *rapid.T) Case {
 		case 1:
 			kind = rapid.SampledFrom([]string{"native", "native", "spa"}).Draw(t, "kind1")
 		case 2:
-			kind = rapid.SampledFrom([]string{"pkjwt", "pkjwt", "pkjwt", "basic", "post", "native"}).Draw(t, "kind2")
+			kind = rapid.SampledFrom([]string{"pkjwt", "pkjwt", "pkjwt", "pkjwt", "basic", "post", "native"}).Draw(t, "kind2")
 		default:
 			kind = rapid.SampledFrom(all).Draw(t, fmt.Sprintf("kind%d", i))
 		}
 		c.Clients = append(c.Clients, genClient(t, i, kind))
+	}
+	var pk []int
+	for i := range c.Clients {
+		if c.Clients[i].AuthMethod == "private_key_jwt" {
+			pk = append(pk, i)
+		}
 	}
 	steps := rapid.IntRange(3, vkit.Scale(14, 20)).Draw(t, "steps")
 	for s := 0; s < steps && len(c.Ops) < 40; s++ {
@@ -312,22 +334,22 @@ func genCase0(t *rapid.T) Case {
 		case "flow":
 			cb := Op{Kind: "callback"}
 			user := rapid.IntRange(0, 2).Draw(t, "user")
-			if rapid.IntRange(0, 11).Draw(t, "cb-faulted") == 0 {
+			if rapid.IntRange(0, 19).Draw(t, "cb-faulted") == 0 {
 				cb.Fault = genFault(t, callbackFaultMethods, 4)
 			}
-			c.Ops = append(c.Ops, genAuthorize(t, n), Op{Kind: "login", User: user}, cb)
+			c.Ops = append(c.Ops, genAuthorize(t, n, pk), Op{Kind: "login", User: user}, cb)
 		case "authorize":
-			c.Ops = append(c.Ops, genAuthorize(t, n))
+			c.Ops = append(c.Ops, genAuthorize(t, n, pk))
 		case "login":
 			c.Ops = append(c.Ops, Op{Kind: "login", Req: rapid.SampledFrom(backIdx).Draw(t, "req"), User: rapid.IntRange(0, 2).Draw(t, "user")})
 		case "callback":
 			cb := Op{Kind: "callback", Req: rapid.SampledFrom(backIdx).Draw(t, "req")}
-			if rapid.IntRange(0, 5).Draw(t, "cb-faulted") == 0 {
+			if rapid.IntRange(0, 9).Draw(t, "cb-faulted") == 0 {
 				cb.Fault = genFault(t, callbackFaultMethods, 4)
 			}
 			c.Ops = append(c.Ops, cb)
 		case "exchange":
-			c.Ops = append(c.Ops, genExchange(t, n))
+			c.Ops = append(c.Ops, genExchange(t, n, pk))
 		}
 	}
 	return c
@@ -347,7 +369,8 @@ type exec struct {
 
 	okKeys, noKeys map[string]bool
 	faultKeys      map[string]bool
-	lastAsserter   int // index of the client that last presented a valid assertion of its own (-1: none yet)
+	lastAsserter   int          // index of the client that last presented a valid assertion of its own (-1: none yet)
+	didAssert      map[int]bool // clients that have done so at all
 	trace          []string
 	accepted       int
 	asserted       int
@@ -517,15 +540,26 @@ func (e *exec) present(o Op, as, owner *vkit.ClientSpec) (vkit.Cred, wire) {
 	case "foreign_key":
 		// somebody who holds the private key of another private_key_jwt client names `as` (issuer, subject, as's key id) and signs
 		// with that other client's key: preferably the client that last authenticated with an assertion in this history
-		signer := -1
-		if e.lastAsserter >= 0 && e.c.Clients[e.lastAsserter].ID != as.ID {
-			signer = e.lastAsserter
-		} else {
-			for i := range e.c.Clients {
-				if c := &e.c.Clients[i]; c.AuthMethod == "private_key_jwt" && c.ID != as.ID && len(c.Keys) > 0 {
-					signer = i
-					break
+		// preference: a client whose key id equals as's and that authenticated with an assertion earlier in this history,
+		// one whose key id equals as's, the one that authenticated last, any
+		signer, best := -1, 0
+		for i := range e.c.Clients {
+			c := &e.c.Clients[i]
+			if c.AuthMethod != "private_key_jwt" || c.ID == as.ID || len(c.Keys) == 0 || c.Keys[kidOf(c)] == as.Keys[kidOf(as)] {
+				continue
+			}
+			score := 1
+			if i == e.lastAsserter {
+				score = 2
+			}
+			if kidOf(c) == kidOf(as) {
+				score = 3
+				if e.didAssert[i] {
+					score = 4
 				}
+			}
+			if score > best {
+				signer, best = i, score
 			}
 		}
 		if signer < 0 {
@@ -539,7 +573,7 @@ func (e *exec) present(o Op, as, owner *vkit.ClientSpec) (vkit.Cred, wire) {
 		e.res.Label("pres:foreign-key")
 		if kidOf(sc) == kidOf(as) {
 			e.res.Label("pres:foreign-key:kid-shared-with-signer")
-			if signer == e.lastAsserter {
+			if e.didAssert[signer] {
 				e.res.Label("pres:foreign-key:kid-shared-with-signer:after-signer-authenticated")
 			}
 		}
@@ -778,6 +812,7 @@ func (e *exec) exchange(i int, o Op) {
 		for ci := range clients {
 			if clients[ci].ID == w.assertIss {
 				e.lastAsserter = ci
+				e.didAssert[ci] = true
 			}
 		}
 	}
@@ -1016,7 +1051,7 @@ func run(c Case) (res *vkit.Result) {
 		res.Label("skip:malformed-case")
 		return res
 	}
-	e := &exec{c: c, res: res, okKeys: map[string]bool{}, noKeys: map[string]bool{}, faultKeys: map[string]bool{}, lastAsserter: -1}
+	e := &exec{c: c, res: res, okKeys: map[string]bool{}, noKeys: map[string]bool{}, faultKeys: map[string]bool{}, lastAsserter: -1, didAssert: map[int]bool{}}
 	e.rs = vkit.ClientSpec{ID: rsID, Secret: rsSecret, AppType: "web", AuthMethod: "client_secret_basic"}
 	var regs []*vkit.ClientSpec
 	for i := range c.Clients {
